@@ -165,13 +165,13 @@ def check_pairs_and_keys(prog, rep, tier):
                             t, ast.Attribute) and isinstance(t.ctx, ast.Store)}
                         sup = resolve_super('from_hdf5')(sup) if _calls_super(
                             sup, 'from_hdf5') else None
-                    if val.attr not in assigned and not _calls_ctor(lf):
+                    if val.attr not in assigned and not _calls_ctor(lf, ci):
                         rep.violation(
                             'HDF5-restore', lo.module, ql, 'never-restored:' + key[1],
                             '%s saves self.%s under %r but %s never loads it nor sets .%s: the '
                             'loaded object lacks this attribute' %
                             (qs, val.attr, key[1], ql, val.attr), lf.lineno)
-                    elif val.attr not in assigned and _ctor_only_constant(ct, ci, val.attr):
+                    elif val.attr not in assigned and _calls_ctor(lf, ci) and _ctor_only_constant(ct, ci, val.attr):
                         # the reader rebuilds the object through the constructor; the constructor
                         # can only reproduce what it derives from its arguments
                         rep.violation(
@@ -218,10 +218,17 @@ def _calls_super(f, meth):
     return False
 
 
-def _calls_ctor(f):
+def _calls_ctor(f, ci=None):
     for c in body_nodes(f):
         if isinstance(c, ast.Call) and dotted(c.func) == 'cls':
             return True
+        # ... or through a private classmethod helper of the class
+        if ci is not None and isinstance(c, ast.Call) and isinstance(c.func, ast.Attribute) and \
+                unparse(c.func.value) == 'cls' and c.func.attr.startswith('_'):
+            for k in ci.mro:
+                g = k.methods.get(c.func.attr)
+                if g is not None and _calls_ctor(g):
+                    return True
     return False
 
 
@@ -1154,10 +1161,18 @@ def check_ctor_roles(prog, rep):
     dependence through __init__ and its helpers)."""
     ct = prog.classtable()
     n = 0
+    todo = []
     for ci in ct.all:
-        f = ci.methods.get('from_hdf5')
-        if f is None:
+        f0 = ci.methods.get('from_hdf5')
+        if f0 is None:
             continue
+        # the loader itself and private classmethod helpers it calls (`cls._helper(..)`)
+        cands = [f0] + [ci.methods[c.func.attr] for c in body_nodes(f0) if isinstance(c, ast.Call)
+                        and isinstance(c.func, ast.Attribute) and unparse(c.func.value) == 'cls'
+                        and c.func.attr in ci.methods and c.func.attr.startswith('_')]
+        for f in cands:
+            todo.append((ci, f))
+    for ci, f in todo:
         calls = [c for c in body_nodes(f) if isinstance(c, ast.Call) and
                  isinstance(c.func, ast.Name) and c.func.id == 'cls']
         if not calls:
@@ -1428,7 +1443,8 @@ def _inherited_loader_gaps(prog):
             continue
         src = ' '.join(unparse(g) for _, g in chain)
         if '__dict__' in src or 'load_dict' in src or any(
-                isinstance(x, ast.Call) and unparse(x.func) == 'cls' for _, g in chain for x in ast.walk(g)):
+                isinstance(x, ast.Call) and unparse(x.func) == 'cls' for _, g in chain for x in ast.walk(g)) \
+                or any(_calls_ctor(g, ci) for _, g in chain):
             continue
         n += 1
         restored = set()
